@@ -195,6 +195,6 @@ pub fn stratified_years(lo: i64, hi: i64, step: i64, specials: &[i64], seed: u64
 }
 
 /// years that every stratified sample includes: the calendar's awkward places
-pub const SPECIAL_YEARS: [i64; 57] = [
-  1, 2, 3, 4, 8, 9, 10, 15, 16, 18, 19, 21, 22, 23, 24, 25, 26, 100, 236, 237, 238, 239, 240, 241, 400, 640, 641, 1000, 1500, 1581, 1582, 1583, 1584, 1599, 1600, 1601, 1644, 1645, 1700, 1800, 1900, 1959, 1960, 1961, 2000, 2024, 2100, 7275, 7276, 7277, 8000, 8040, 9000, 9996, 9997, 9998, 9999,
+pub const SPECIAL_YEARS: [i64; 70] = [
+  1, 2, 3, 4, 8, 9, 10, 15, 16, 18, 19, 21, 22, 23, 24, 25, 26, 100, 200, 236, 237, 238, 239, 240, 241, 300, 400, 500, 600, 640, 641, 700, 900, 1000, 1100, 1300, 1400, 1500, 1581, 1582, 1583, 1584, 1599, 1600, 1601, 1644, 1645, 1700, 1800, 1900, 1959, 1960, 1961, 2000, 2024, 2100, 2200, 2300, 2400, 4000, 7275, 7276, 7277, 8000, 8040, 9000, 9996, 9997, 9998, 9999,
 ];
